@@ -23,8 +23,19 @@ func init() {
 	register(&Workload{Prop: "C18", Variant: "fault-free", Horizon: 4 * time.Hour, MaxSteps: 6000000, MaxG: 16384, Spin: 200000, PCTLen: 100000, Weight: 1, Body: func(r *R) { c18Run(r, false) }})
 	register(&Workload{Prop: "C18", Variant: "faults", Horizon: 4 * time.Hour, MaxSteps: 6000000, MaxG: 16384, Spin: 200000, PCTLen: 100000, Weight: 3, Body: func(r *R) { c18Run(r, true) }})
 	// fault-free, 2-3 nodes, full fan-out, the seed comes up last and late, detection tick as frequent as the heartbeat
+	register(&Workload{Prop: "C18", Variant: "split", Horizon: 4 * time.Hour, MaxSteps: 6000000, MaxG: 16384, Spin: 200000, PCTLen: 100000, Weight: 1, Body: func(r *R) { c18Split = true; defer func() { c18Split = false }(); c18Run(r, true) }})
+	register(&Workload{Prop: "C18", Variant: "islands", Horizon: 4 * time.Hour, MaxSteps: 6000000, MaxG: 16384, Spin: 200000, PCTLen: 100000, Weight: 1, Body: func(r *R) { c18Islands = true; defer func() { c18Islands = false }(); c18Run(r, false) }})
 	register(&Workload{Prop: "C18", Variant: "late-join", Horizon: 4 * time.Hour, MaxSteps: 6000000, MaxG: 16384, Spin: 200000, PCTLen: 100000, Weight: 1, Body: func(r *R) { c18LateJoin = true; defer func() { c18LateJoin = false }(); c18Run(r, false) }})
 }
+
+// c18Split narrows c18Run to one scenario: full fan-out, no other fault than one split of the cluster that lasts longer than
+// it takes both sides to remove each other; side B has no seed and at least two nodes.
+var c18Split bool
+
+// c18Islands narrows c18Run to self-seeded islands: seed A lists both seeds, seed B lists only itself (or nobody) and comes
+// up later with its own joiners; nobody of A's island is in B's view and the reverse. What unites them is that A keeps
+// gossiping to the configured seed B whether or not B is a member. Full fan-out, no faults.
+var c18Islands bool
 
 // c18LateJoin narrows c18Run to the late-join scenario (set only for the duration of one run of that variant; runs of one
 // worker process are sequential).
@@ -56,12 +67,17 @@ type c18Cfg struct {
 	fanout    int
 	strategy  int
 	maxSkew   time.Duration
+	seedsFor  map[int][]string // per-node seed lists (islands); nil: every node uses seeds
 }
 
 func c18Addr(i int) string { return fmt.Sprintf("127.0.0.1:%d", 9301+i) }
 
 func c18StartNode(r *R, nw *simnet.Net, cfg *c18Cfg, idx, tag int, nodeID string, t0 time.Time) *CNode {
-	opts := []vivid.ClusterOption{vivid.WithClusterSeeds(cfg.seeds), vivid.WithClusterDiscoveryInterval(cfg.interval), vivid.WithClusterFailureDetectionTimeout(cfg.fdTimeout),
+	seeds := cfg.seeds
+	if cfg.seedsFor != nil {
+		seeds = cfg.seedsFor[idx]
+	}
+	opts := []vivid.ClusterOption{vivid.WithClusterSeeds(seeds), vivid.WithClusterDiscoveryInterval(cfg.interval), vivid.WithClusterFailureDetectionTimeout(cfg.fdTimeout),
 		vivid.WithClusterSuspectConfirmDuration(cfg.confirm), vivid.WithClusterMaxDiscoveryTargetsPerTick(cfg.fanout), vivid.WithClusterNodeID(nodeID),
 		vivid.WithClusterVersionConcurrentStrategy(vivid.VersionConcurrentStrategy(cfg.strategy))}
 	if cfg.maxSkew > 0 {
@@ -146,6 +162,18 @@ func c18Run(r *R, faults bool) {
 	if cfg.n >= 3 && r.Chance(40) {
 		nSeeds = 2
 	}
+	if c18Split {
+		cfg.n, nSeeds = 3+r.Choose(3), 1
+		if cfg.n >= 4 && r.Chance(40) {
+			nSeeds = 2
+		}
+		cfg.fanout = 20
+		cfg.fdTimeout = []time.Duration{4 * time.Second, 8 * time.Second}[r.Choose(2)]
+	}
+	if c18Islands {
+		cfg.n, nSeeds = 3+r.Choose(3), 2
+		cfg.fanout = 20
+	}
 	if c18LateJoin {
 		cfg.n, nSeeds = 2+r.Choose(2), 1
 		cfg.fanout = 20
@@ -169,7 +197,29 @@ func c18Run(r *R, faults bool) {
 		order[i] = i
 	}
 	lateSeed := false
-	if c18LateJoin || r.Chance(30) {
+	islandGap := time.Duration(0)
+	if c18Islands {
+		// node0 = seed A (seeds: A and B), node1 = seed B (seeds: itself, or none), the others join A (even index) or B (odd)
+		cfg.seedsFor = map[int][]string{0: {c18Addr(0), c18Addr(1)}, 1: {c18Addr(1)}}
+		if r.Chance(40) {
+			cfg.seedsFor[1] = nil
+		}
+		order = order[:0]
+		for i := 0; i < cfg.n; i += 2 {
+			order = append(order, i)
+		}
+		for i := 1; i < cfg.n; i += 2 {
+			order = append(order, i)
+		}
+		for i := 2; i < cfg.n; i++ {
+			cfg.seedsFor[i] = []string{c18Addr(i % 2)}
+		}
+		// B's island comes up at once, or only after A's first gossip to B's address has long been given up
+		islandGap = []time.Duration{0, 3 * time.Second, 25 * time.Second, 40 * time.Second}[r.Choose(4)]
+		desc["islands"] = fmt.Sprintf("A: seeds %v; B: seeds %v, started %v after A's island", cfg.seedsFor[0], cfg.seedsFor[1], islandGap)
+		r.Count("self-seeded-islands")
+	}
+	if !c18Islands && (c18LateJoin || r.Chance(30)) {
 		for i := cfg.n - 1; i > 0; i-- {
 			j := r.Choose(i + 1)
 			order[i], order[j] = order[j], order[i]
@@ -199,6 +249,9 @@ func c18Run(r *R, faults bool) {
 	for k, i := range order {
 		if k > 0 {
 			vsimrt.Sleep(time.Duration(r.Choose(1500)) * time.Millisecond) // timer phase offsets between nodes
+			if c18Islands && i == 1 {
+				vsimrt.Sleep(islandGap)
+			}
 			if lateSeed && i < nSeeds && (c18LateJoin || r.Chance(50)) {
 				// the seed comes up several seconds late: the waiting joiners' node states are older than the timeout
 				vsimrt.Sleep(time.Duration(2+r.Choose(9)) * time.Second)
@@ -226,6 +279,9 @@ func c18Run(r *R, faults bool) {
 		phase := time.Duration(30+r.Choose(91)) * time.Second
 		end := time.Since(t0) + phase
 		nF := 1 + r.Choose(6)
+		if c18Split {
+			nF = 1
+		}
 		for f := 0; f < nF && time.Since(t0) < end; f++ {
 			vsimrt.Sleep(time.Duration(1+r.Choose(15)) * time.Second)
 			// choose a fault; seeds are never crashed or stopped (the property quantifies over non-seed nodes)
@@ -233,11 +289,44 @@ func c18Run(r *R, faults bool) {
 			for i := nSeeds; i < cfg.n; i++ {
 				nonSeed = append(nonSeed, i)
 			}
-			kind := r.ChooseF(7)
+			kind := r.ChooseF(8)
 			if len(nonSeed) == 0 && (kind == 2 || kind == 3) {
 				kind = 0
 			}
+			if kind == 7 && len(nonSeed) < 2 {
+				kind = 1
+			}
+			if c18Split {
+				kind = 7
+			}
 			switch kind {
+			case 7: // the cluster splits in two for longer than it takes both sides to give each other up, then heals
+				// side B has no seed and at least two nodes: after the heal the only bridge between the sides is that configured
+				// seeds stay gossip targets whether or not they are members
+				k := nSeeds + r.ChooseF(cfg.n-nSeeds-1)
+				d := 2*cfg.fdTimeout + 2*cfg.confirm + 3*cfg.interval + time.Duration(r.ChooseF(10))*time.Second
+				reset := r.ChooseF(2) == 0
+				var ta, tb []int
+				for i, n := range nodes {
+					if i < k {
+						ta = append(ta, n.Tag)
+					} else {
+						tb = append(tb, n.Tag)
+					}
+				}
+				for _, a := range ta {
+					for _, b := range tb {
+						nw.Partition(a, b, reset)
+					}
+				}
+				fdesc = append(fdesc, fmt.Sprintf("t=%v split nodes[0..%d) | nodes[%d..%d) for %v (reset=%v): longer than failure detection + confirmation", time.Since(t0).Round(time.Second), k, k, cfg.n, d, reset))
+				vsimrt.Sleep(d)
+				for _, a := range ta {
+					for _, b := range tb {
+						nw.Heal(a, b)
+					}
+				}
+				r.Count("fault:long-split")
 			case 0: // connection cuts between two nodes
 				a, b := r.ChooseF(cfg.n), r.ChooseF(cfg.n)
 				if a != b && nodes[a].running && nodes[b].running {
